@@ -35,6 +35,19 @@ class Injected(RuntimeError):
     """the fault a double raises when the fault plan says so"""
 
 
+class InjectedBase(BaseException):
+    """the same, outside the Exception hierarchy (like KeyboardInterrupt / SystemExit / GeneratorExit)"""
+
+
+INJECTED = (Injected, InjectedBase)
+
+
+def injected(tid, k):
+    """the fault for the k-th call of thread tid: the class is a fixed function of the position, so that a fault plan stays
+    schedule independent and every plan with two or more faults mixes both kinds"""
+    return (InjectedBase if (3 * tid + k) % 2 else Injected)('injected fault')
+
+
 def current_tid():
     return _local.tid
 
